@@ -341,6 +341,24 @@ func famCalOverlap(o *Out, r *RNG, thorough bool) {
 			}
 		}
 	}
+	// long recurrences: the overlapping instance is far down the rule (hourly, daily; a range around instance k only)
+	for _, rc := range []struct {
+		freq   string
+		period int64
+		count  int
+	}{{"DAILY", 86400, 1200}, {"HOURLY", 3600, 1001}, {"DAILY", 86400, 999}} {
+		props := []gProp{{name: "DTSTART", value: fmtUTC(tAt(1))}, {name: "DURATION", value: "PT1H"},
+			{name: "RRULE", value: fmt.Sprintf("FREQ=%s;COUNT=%d", rc.freq, rc.count)}}
+		ev := evComp(props...)
+		ev.rec = &gRec{first: tAt(1).Unix(), step: rc.period, count: rc.count}
+		g := calOf(ev)
+		for _, k := range []int{0, 1, 500, 998, 999, 1000, 1100, rc.count - 1, rc.count} {
+			at := tAt(1).Add(time.Duration(int64(k)*rc.period) * time.Second)
+			emitCalMatch(o, rangeFilter(at, at.Add(30*time.Minute)), g)
+			emitCalMatch(o, rangeFilter(at.Add(-2*time.Hour), at.Add(-time.Hour)), g)
+			emitCalMatch(o, rangeFilter(at.Add(30*time.Minute), zero), g)
+		}
+	}
 	// property time ranges
 	for _, rs := range bounds {
 		for _, re := range bounds {
@@ -434,6 +452,18 @@ func famCalTree(o *Out, r *RNG, thorough bool) {
 			}
 		}
 	}
+	// one text-match alone decides: every text x every value x negation, on a property and on a parameter (random
+	// filters have so many conjuncts that a single text-match seldom decides the outcome)
+	for _, text := range calTexts {
+		for _, value := range calTexts {
+			for _, neg := range []bool{false, true} {
+				tm := &caldav.TextMatch{Text: text, NegateCondition: neg}
+				g := calOf(&gComp{name: "VEVENT", props: []gProp{{name: "SUMMARY", value: value, params: [][]string{{"P", value}}}}})
+				emitCalMatch(o, caldav.CompFilter{Name: "VCALENDAR", Comps: []caldav.CompFilter{{Name: "VEVENT", Props: []caldav.PropFilter{{Name: "SUMMARY", TextMatch: tm}}}}}, g)
+				emitCalMatch(o, caldav.CompFilter{Name: "VCALENDAR", Comps: []caldav.CompFilter{{Name: "VEVENT", Props: []caldav.PropFilter{{Name: "SUMMARY", ParamFilter: []caldav.ParamFilter{{Name: "P", TextMatch: tm}}}}}}}, g)
+			}
+		}
+	}
 	n := 3000
 	if thorough {
 		n = 60000
@@ -457,7 +487,7 @@ func famCalTree(o *Out, r *RNG, thorough bool) {
 	}
 }
 
-var calTexts = []string{"", "a", "ab", "b", "é", "a b"}
+var calTexts = []string{"", "a", "ab", "b", "é", "a b", " a", "a ", " ", "b\t", "\ta b "}
 
 func randTM(r *RNG) *caldav.TextMatch {
 	if r.Chance(40) {
